@@ -11,16 +11,19 @@ NameU == {<<c1, c2>> : c1 \in Alphabet, c2 \in Alphabet}
 \* literal tables (module MpqBuildNames), re-derived from the MpqCrypto reference by MC_MpqBuildHash
 MCNameHash(nm) == LitNameHash(nm)
 MCFileKey(nm)  == LitFileKey(nm)
+MCHet8(nm)     == LitHet8(nm)
+MCBetL3(nm)    == LitBetL3(nm)
+MCBetOaat(nm)  == LitBetOaat(nm)
 NHTable == [nm \in NameU |-> LitNameHash(nm)]      \* (used by the ASSUMEs only)
 FKTable == [nm \in NameU |-> LitFileKey(nm)]
 
 SameName(n1, n2) == LitNameHash(n1).a = LitNameHash(n2).a /\ LitNameHash(n1).b = LitNameHash(n2).b
-N1 == <<97, 47>>        \* "a/"
+N1 == <<47, 97>>        \* "/a": plain name "a"; its slash-flipped spelling "\a" has the same plain name
 N2 == <<66, 120>>       \* "Bx"
 Others == {nm \in NameU : ~SameName(nm, N1) /\ ~SameName(nm, N2)}
 \* literal (found by TLC with CHOOSE over Others; the conditions are ASSUMEd below)
-N3 == <<65, 46>>        \* "A.": shares the home slot of N1
-A1 == <<65, 65>>        \* "AA": absent, shares the home slot of N1 and N3
+N3 == <<46, 66>>        \* ".B": shares the home slot of N1
+A1 == <<47, 46>>        \* "/.": absent, shares the home slot of N1 and N3
 A2 == <<46, 46>>        \* "..": absent, other home slot
 ASSUME {N3, A1, A2} \subseteq Others /\ ~SameName(A1, N3) /\ ~SameName(A2, N3) /\ NHTable[A2].home # NHTable[N1].home
 AbsentNames == {A1, A2}
@@ -39,25 +42,35 @@ ASSUME \A n \in {20, 100, 1000} : \A c \in {1, n \div 2, n - 2, n - 1, n, n + 5}
           /\ (TableOutcome(n, c) = "ignored") <=> c < n - 2
 Small == SectorSize = 4
 MCLens == IF Small THEN (IF QuickTier THEN {0, 3, 4, 5, 9, 13} ELSE {0, 1, 3, 4, 5, 8, 9, 13}) ELSE {SectorSize, SectorSize + 1, 2 * SectorSize + 200}
-MCMethods == {0, ZLIB, PKWARE, ADPCM_STEREO, ADPCM_STEREO + BZIP2} \cup (IF QuickTier THEN {} ELSE {SPARSE})
+MCMethods == {0, ZLIB, PKWARE, ADPCM_STEREO} \cup (IF QuickTier THEN {} ELSE {SPARSE, ADPCM_STEREO + BZIP2})
 F1Set == {[name |-> N1, len |-> n, cls |-> cl, method |-> m, enc |-> en] :
             n \in MCLens, cl \in {"run", "edge", "random"}, m \in MCMethods, en \in {"plain", "enc", "encfix"}}
 F2 == [name |-> N2, len |-> 5, cls |-> "run", method |-> ZLIB, enc |-> "encfix"]
 F3 == [name |-> N3, len |-> 4, cls |-> "edge", method |-> ZLIB, enc |-> "enc"]
 Dup == [name |-> Spell(N2, "lower"), len |-> 1, cls |-> "run", method |-> 0, enc |-> "plain"]
+\* a name whose 8-bit HET hash is 0xFF, the free-slot marker (DevHet8FF)
+FFName == <<120, 46>>      \* "x."
+ASSUME LitHet8(FFName) = 255
+FFf == [name |-> FFName, len |-> 3, cls |-> "run", method |-> ZLIB, enc |-> "plain"]
 FileSeqs == {<<f1, F2, F3>> : f1 \in F1Set} \cup {<<F2, f1, F3>> : f1 \in F1Set} \cup {<<F2, Dup, F3>>}
+            \cup {<<F2, FFf, F3>>, <<FFf, F3, F2>>}
 
 \* Vacuity guard without TLC's -coverage (its cost-model construction does not terminate in reasonable time on
 \* this module graph): every action reports itself once per worker through a TLC register.
 Mark(reg, name) == IF TLCGet(reg) = 0 THEN TLCSet(reg, 1) /\ PrintT(<<"ACTION", name>>) ELSE TRUE
-MCInit == BInitWith(FileSeqs) /\ \A reg \in 1..7 : TLCSet(reg, 0)
+MCInit == BInitWith(FileSeqs) /\ \A reg \in 1..11 : TLCSet(reg, 0)
 MCNext == \/ BuildFailCodec /\ Mark(1, "BuildFailCodec")
           \/ WriteSingleUnit /\ Mark(2, "WriteSingleUnit")
           \/ WriteSector /\ Mark(3, "WriteSector")
           \/ FinishFile /\ Mark(4, "FinishFile")
           \/ AddHash /\ Mark(5, "AddHash")
-          \/ \E i \in 1..3 : \E sp \in Spellings : ReadFile(i, sp) /\ Mark(6, "ReadFile")
+          \/ \E i \in 1..3 : \E sp \in (IF QuickTier /\ i > 1 THEN {"asis", "flip"} ELSE Spellings) :
+                 ReadFile(i, sp) /\ Mark(6, "ReadFile")
           \/ \E nm \in AbsentNames : \E sp \in Spellings : ReadAbsent(nm, sp) /\ Mark(7, "ReadAbsent")
+          \/ HetProbe /\ Mark(8, "HetProbe")
+          \/ BetVerify /\ Mark(9, "BetVerify")
+          \/ ClassicFallback /\ Mark(10, "ClassicFallback")
+          \/ Deliver /\ Mark(11, "Deliver")
 
 \* Negative controls (cfg MC_MpqBuild_neg): invariants that MUST be violated on the as-is model -- they state the
 \* absence of the named deviations.  The check fails stage A if TLC does not find the counterexamples.
